@@ -153,6 +153,8 @@ var Regexes = []*RegexSpec{
 	{Src: "[0-9a-f]{8}", Yes: []string{"deadbeef", "01234567"}, No: []string{"xyz", "DEADBEEF", "dead"}, Part: []string{"deadbeef0", "xdeadbeef"}},
 	{Src: "v[0-9]", Yes: []string{"v1", "v9"}, No: []string{"w1", "1v", "V1"}, Part: []string{"v10", "xv1"}},
 	{Src: "[a-z]+-[0-9]+", Yes: []string{"ab-12", "z-0"}, No: []string{"ab12", "AB-12", "-"}, Part: []string{"ab-12x", "1ab-1"}},
+	{Src: "[a-z]+(-[0-9]+)?", Yes: []string{"ab", "ab-12", "z-0"}, No: []string{"12", "AB", "_"}, Part: []string{"ab-", "1ab", "ab-12x"}},
+	{Src: "(x|y)[0-9]", Yes: []string{"x1", "y9"}, No: []string{"z1", "X1", "xy"}, Part: []string{"x12", "ax1"}},
 	{Src: "\\d\\d\\d", Yes: []string{"123", "000"}, No: []string{"12", "abc", "1a2", "\u0661\u0662\u0663", "\uff11\uff12\uff13"}, Part: []string{"1234"}},
 }
 
@@ -267,6 +269,9 @@ type Req struct {
 	HasAcc  bool              `json:"has_accept,omitempty"`
 	Accept  string            `json:"accept,omitempty"`
 	BodyLen int               `json:"body_len,omitempty"`
+	Body    []byte            `json:"-"`                   // explicit body bytes (BodyLen must equal len(Body)); nil: BodyLen times 'b'
+	BodyStr string            `json:"body,omitempty"`      // Body for the record
+	Slow    bool              `json:"slow_body,omitempty"` // the body arrives in small slices with a yield in between
 	Hdr     map[string]string `json:"hdr,omitempty"`
 	Class   string            `json:"class,omitempty"` // how the generator made it (hit, near:<mutation>, adv)
 }
